@@ -112,6 +112,24 @@ class GaussStep(Gauss):
         return np.floor(out * 4.0) * 0.25
 
 
+class GaussOpen(Gauss):
+    """Uniform prior whose `log_prior` does NOT vanish outside the bounds (the Model API does
+    not require it to: the bounds are enforced by nessai), likelihood peaked beyond the upper
+    corner so that a trained flow proposes points across the edge."""
+
+    def __init__(self, dims=2, **kw):
+        super().__init__(dims, lo=-1.0, hi=1.0, **kw)
+
+    def log_prior(self, x):
+        return np.zeros(x.size) + self._log_prior_const
+
+    def log_likelihood(self, x):
+        out = np.zeros(x.size)
+        for n in self.names:
+            out = out + (x[n] - 1.25) * (x[n] - 1.25) * (-2.0)
+        return out
+
+
 class GW5(Model):
     """GW-named parameters with conventional bounds; priors: uniform in mass parameters,
     ra, psi; cosine in dec; Gaussian likelihood in rescaled coordinates.  Exists only to
@@ -193,6 +211,8 @@ def make(name="G2", **kw):
         return GaussCut(2, **kw)
     if name == "G2hole":
         return GaussHole(2, **kw)
+    if name == "G2open":
+        return GaussOpen(2, **kw)
     if name == "GW5":
         return GW5()
     if name == "G2ramp":
